@@ -10,7 +10,8 @@ THOROUGH_S = 600
 RULE = ('one caller on one real synchronous client (TCP, UDP, serial rtu/ascii/binary, framer-over-TCP, TLS stub), 1-8 '
         'transactions of all mixin request types plus, through client.execute(), the rest of the request classes (FC 07, 08 with '
         'sub-functions 0-3/10-18/20/21, 0B, 0C, 11, 14, 15, 18, 2B/0E) with spec-conformant replies; fault-free config: the reference server answers every '
-        'request (normal or exception), replies cut into pieces on stream transports, and the returned object must carry '
+        'request (normal or exception), replies cut into pieces on stream transports or arriving slowly (late start, '
+        'segments spread over up to 0.85 x timeout), and the returned object must carry '
         'exactly the values sent; fault config: before/instead of the right reply the peer sends stale frames (previous '
         'transaction id, another unit, another function code), after earlier timed-out transactions, with the tid counter '
         'started near 0xFFFF. Oracle: the return value is an error object or a response that IS one of the objects the '
@@ -72,6 +73,15 @@ def generate(rng, tier, index):
                 script.append({'act': 'wrong_unit', 'du': rng.choice([1, 5, 255])})
             else:
                 script.append({'act': act})
+        elif kind in ('tcp', 'serial') and len(good) > 4 and rng.random() < 0.12:
+            # a slow but conformant server: the reply starts late and (TCP) dribbles in over several segments,
+            # all of it well inside the client's timeout (done after at most 0.8 x timeout)
+            d0, gap = rng.choice([(0.1, 0.05), (0.3, 0.1), (0.4, 0.1), (0.05, 0.25), (0.02, 0.2), (0.5, 0.0)])
+            nseg = min(rng.randint(2, 4), int((0.85 - d0) / gap) if gap else 4) if kind == 'tcp' else 0
+            script.append({'act': 'exception' if 'exc' in op['reply'] else 'reply', 'code': op['reply'].get('exc', 2),
+                           'delay': round(timeout * d0, 6),
+                           'cuts': sorted(set(rng.randrange(1, len(good)) for _ in range(nseg))),
+                           'cutgap': round(timeout * gap, 6)})
         elif kind in ('tcp', 'serial') and len(good) > 3 and rng.random() < 0.3:     # (TLS: a record is never split by the stub)
             script.append({'act': 'exception' if 'exc' in op['reply'] else 'reply',
                            'code': op['reply'].get('exc', 2),
